@@ -192,7 +192,7 @@ theorem sim {M M' : Machine} {obj : HostVal} (hM : MRel (BRel M M' obj) M M') (h
               rw [loop_mono M' obj f3 c' _ stk2 d hne (max f2 f3) (Nat.le_max_right _ _)]
               exact h3
       · -- a window
-        obtain ⟨k, k', e, e', stack1, st1, st1', hk, hS, hS', hRe, hst1⟩ := hw stack st st' hst
+        obtain ⟨k, k', e, e', stack1, st1, st1', hk, hS, hS', hRe, hst1, _⟩ := hw stack st st' hst
         have hge : k ≤ n + 1 := by
           apply Nat.le_of_not_lt
           intro hlt
